@@ -9,56 +9,56 @@ REQUIRED = ["Sun.get_equinox_solstice", "Sun.equation_of_time", "Sun.apparent_ge
             "Epoch.rise_set", "Epoch.apparent_sidereal_time", "times_rise_transit_set",
             "equatorial2horizontal", "ecliptical2equatorial", "true_obliquity", "nutation_longitude"]
 THEOREMS = ["C14_jde2000", "C14_eot_closed_form", "C14_eot_reduced", "C14_eot_bound", "C14_eot_seconds", "C14_eot_recompose",
-            "C14_season_first_query", "C14_season_year_range", "C14_season_type",
-            "C14_season_exit_step", "C14_season_loop_invariant", "C14_season_order", "C14_season_year_length", "C14_season_joint",
-            "C14_sunrise_identity", "C14_rise_set_closed_form", "C14_rise_set_altitude", "C14_rise_set_order",
-            "C14_rise_set_polar", "C14_trts_none", "C14_trts_passes_guard", "C14_never_crosses"]
+            "C14_season_structure", "C14_season_loop_invariant", "C14_season_year_range", "C14_season_type",
+            "C14_season_order", "C14_season_year_length", "C14_season_joint",
+            "C14_sunrise_identity", "C14_rise_set_closed_form", "C14_callee_shapes", "C14_rise_set_altitude", "C14_rise_set_order",
+            "C14_rise_set_polar", "C14_trts_none", "C14_never_crosses"]
 PROOF_TIMEOUT = {"quick": 1500, "thorough": 2400}
 EXHAUSTIVE = False
 MANIFEST = {
     "category": "proof",
-    "text": "Ideal-instance closed forms of the regenerated Sun.equation_of_time (E = 4*red(L0-0.0057183-alpha+dpsi*cos eps), |E|<=720, (m,s) decomposition) and of Sun.get_equinox_solstice (mean-instant polynomials per season and year range, range/type errors, exit step of the correction loop) with the VSOP position, nutation and the Epoch/Angle constructors abstracted as hypotheses; interval proofs of ordering/spacing of the mean instants; sunrise-equation identity; everything numeric against the library's own solar position by a literal Python oracle; bit-exact correspondence.",
-    "technique": "symbolic evaluation of the generated model in the real-number instance with abstracted callees (call-by-value pyrun) + field/lra/interval + property oracle search + bit-exact differential correspondence",
+    "text": "Partial proof. Ideal-instance (real-arithmetic) closed forms of the regenerated Sun.equation_of_time (E = 4*red360(L0-0.0057183-alpha+dpsi*cos eps), |E|<=720 min, (m,s) decomposition), of Epoch.rise_set (sunrise-equation quotient with h0 = -0.83-2.076 sqrt(h)/60 deg as coded, ValueError beyond 66.55 deg) and of the None guard of times_rise_transit_set (if direction only); structure of Sun.get_equinox_solstice (mean-instant polynomials, exit and iteration step of the generated loop) and its loop invariant by induction on the fuel = PARTIAL correctness (termination, attainability of the Sun-position premises and exclusion of the antipode are not proved). Callees (VSOP position, nutation, obliquity, Epoch/Angle constructors, get_date, leap_seconds) are abstracted as hypotheses whose result shapes are shown attained by the model in its binary64 instance. Every numeric clause of the property (1e-5 deg, 25/17.5 min, 45 s/day, 1 deg, 0.005 deg, None iff never crossing) is only searched by a literal Python oracle; bit-exact correspondence every run.",
+    "technique": "symbolic evaluation of the generated model in the real-number instance with abstracted callees (call-by-value pyrun2) + induction on loop fuel + field/lra/nra/interval + binary64 witnesses (vm_compute) + property oracle search + bit-exact differential correspondence",
     "design_ref": "8/C14",
 }
-EXPLANATION = ("Generated Sun.equation_of_time is evaluated symbolically (ideal instance) to its closed form: 4 x the "
-               "float reduced to +-180 deg, so |E|<=720 min and the Angle-typed no-op reduction of the old code no longer "
-               "type-checks against the theorem; get_equinox_solstice is evaluated up to its loop (mean instants = explicit "
-               "polynomials, ordered/spaced by `interval`), its exit step is characterised; all VSOP-dependent numbers are searched.")
+EXPLANATION = ("Generated Sun.equation_of_time, Epoch.rise_set and the guard of times_rise_transit_set are evaluated symbolically "
+               "(ideal instance, callees abstracted) to closed forms; get_equinox_solstice to its loop structure with the invariant "
+               "|58 sin(k*90 - lambda)| <= 2.5e-6 on exit by induction on the fuel (partial correctness). Everything that needs the "
+               "VSOP numbers - the property's own tolerances - is searched on the implementation, not proved.")
 CLAUSES = {
-    "equation of time = 4*red360(L0 - 0.0057183 - alpha + dpsi cos eps), red360 x = x - 360 round(x/360) (abstract alpha, dpsi, eps, reduced L0; JDE2000 = 2451545 proved: C14_jde2000)":
-        "proved [ideal, pyrun with callees abstracted: C14_eot_closed_form]",
-    "|E| <= 720 min structurally, E congruent to the unreduced value mod 1440 min": "proved [ideal: C14_eot_bound, C14_eot_reduced]",
-    "(m, s): m = trunc(E), s = (|E| mod 1)*60 in [0,60), |m| + s/60 = |E|": "proved [ideal: C14_eot_seconds, C14_eot_recompose]",
-    "|E| <= 25 min (17.5 min in 1800-2200), daily change < 45 s": "unproved (searched): needs VSOP numerics; the sign of E is lost in (m, s) when |E| < 1 min, the day-to-day clause then takes the most favourable sign",
-    "mean instants jde0 of the four seasons are the Meeus polynomials (two year ranges, switch at 1000); first Sun-position query is at Epoch(jde0)":
-        "proved [ideal, pyrun: C14_season_first_query]",
-    "mean instants ordered, 88-95 d apart, same season 365.2-365.3 d apart, continuous (< 0.01 d) at the year-1000 joint":
-        "proved [spec polynomials bridged by C14_season_first_query; interval: C14_season_order, C14_season_year_length, C14_season_joint]",
-    "years outside -1000..3000 -> ValueError, float year -> TypeError": "proved [ideal: C14_season_year_range, C14_season_type]",
-    "loop exit: when |corr| <= 2.5e-6 the body returns Epoch(epoch - corr)": "proved [ideal: C14_season_exit_step]",
-    "loop invariant by induction on the fuel: with the Sun position abstracted as lam(jde) on a step-closed set of instants, any result other than OutOfFuel is an Epoch t with |58 sin(k*90 - lam(t))| <= 2.5e-6":
-        "proved [ideal, pyrun per season/table + induction: C14_season_loop_invariant]",
-    "apparent longitude at the returned instant = 0/90/180/270 within 1e-5 deg, not the antipode; termination": "unproved (searched): VSOP numerics",
-    "generated Epoch.rise_set = Epoch(jt -+ degrees(acos c)/360), c = (sin h0 - sin phi sin delta)/(cos phi cos delta) with h0 = -0.83 - 2.076 sqrt(height)/60 deg as coded (get_date, Epoch constructor, leap_seconds, the two float %360 abstracted)":
-        "proved [ideal, pyrun with callees abstracted: C14_rise_set_closed_form]",
-    "at hour angle +-w0 the altitude formula gives exactly the standard altitude for the algorithm's own declination; rise < transit < set when cos w0 < 1":
-        "proved [ideal/spec: C14_rise_set_altitude (bridges the generated quotient to C14_sunrise_identity), C14_rise_set_order]",
+    "equation of time = 4*red360(L0 - 0.0057183 - alpha + dpsi cos eps), red360 x = x - 360 round(x/360) (abstract alpha, dpsi, eps and the Angle-reduced L0 as hypotheses; JDE2000 = 2451545 proved: C14_jde2000)":
+        "proved [ideal, pyrun with callees abstracted: C14_eot_closed_form; the callee hypotheses (Sun position triple, obliquity, nutation, conversion as Angle objects) are not shown attainable in the ideal instance]",
+    "red360 x is the unique representative of x mod 360 in (-180, 180) (explicit integer Rround(x/360)); |E| <= 720 min structurally":
+        "proved [spec of the reduction, used by the closed form: C14_eot_reduced, C14_eot_bound] - this is NOT the property's 25 / 17.5 min",
+    "(m, s): m = trunc(E), s = (|E| mod 1)*60 in [0,60), |m| + s/60 = |E|": "proved [spec lemmas about the expressions in C14_eot_closed_form: C14_eot_seconds, C14_eot_recompose]",
+    "|E| <= 25 min (17.5 min in 1800-2200), daily change < 45 s": "unproved (searched): needs VSOP numerics; the sign of E is lost in (m, s) when |E| < 1 min: sign-aware reconstruction around the four zero crossings, most favourable sign elsewhere",
+    "get_equinox_solstice = the generated loop started at corr = 1.0, Epoch(jde0), jde0 = Meeus polynomial per season and year table (switch at 1000); loop: no fuel -> OutOfFuel, |corr| <= 2.5e-6 -> Epoch(epoch - corr), else one more round with corr = 58 sin(k*90 - lambda+)":
+        "proved [ideal, pyrun per season x table: C14_season_structure] for int years -1000..3000, under CtorExact D (Epoch(float) exact on the instants visited; attained at dyadic JDEs in the binary64 instance: C14_callee_shapes)",
+    "mean instants jde0 ordered, 88-95 d apart, same season 365.2-365.3 d apart, tables agree to 0.01 d at year 1000":
+        "proved [about the polynomials jde0 the iteration starts from (tied to the code by C14_season_structure), NOT about the returned instants; interval: C14_season_order, C14_season_year_length, C14_season_joint]",
+    "int years outside -1000..3000 -> ValueError (all four seasons, both sides), float year -> TypeError": "proved [ideal: C14_season_year_range, C14_season_type]",
+    "loop invariant: any result other than OutOfFuel is an Epoch t with |58 sin(k*90 - lambda(t))| <= 2.5e-6":
+        "proved as PARTIAL correctness [ideal, induction on the fuel: C14_season_loop_invariant]: termination unproved (OutOfFuel disjunct), premises SunModel/StepClosed (Sun position as a function lambda on a step-closed set of instants) not shown attainable, antipodal longitude not excluded",
+    "apparent longitude at the returned instant = 0/90/180/270 within 1e-5 deg, not the antipode; termination; order/spacing of the RETURNED instants": "unproved (searched): VSOP numerics",
+    "generated Epoch.rise_set = (Epoch(jt - w/360), Epoch(jt + w/360)), w = degrees(acos c), c = (sin h0 - sin phi sin delta)/(cos phi cos delta), h0 = -0.83 - 2.076 sqrt(height)/60 deg as coded":
+        "proved [ideal, pyrun: C14_rise_set_closed_form] for |latitude| <= 66.55, height >= 0, with get_date / Epoch(y,m,d) / leap_seconds (int) / the two output Epoch constructions abstracted; shapes attained by the model: C14_callee_shapes (binary64 instance, JDE 2451545) and C14_jde2000 (ideal)",
+    "at hour angle +-w0 the altitude formula gives exactly the coded standard altitude for the algorithm's own declination; rise < transit < set when cos w0 < 1":
+        "proved [trig, tied to the generated quotient rs_cosom of C14_rise_set_closed_form: C14_rise_set_altitude, C14_rise_set_order; C14_sunrise_identity, C14_never_crosses are the underlying [spec] identities]",
     "ValueError beyond the limit Angle(66,33,0) = 66.55 deg as coded": "proved [ideal: C14_rise_set_polar]",
-    "times_rise_transit_set returns (None, None, None) exactly when |cos H0| > 1":
-        "proved [ideal: C14_trts_none (if), C14_trts_passes_guard (only if: with |cos H0| <= 1 the next statement after the guard is reached), C14_never_crosses (no hour angle reaches h0)]",
-    "rise/set within 1 deg of -0.8333 - dip against VSOP Sun + sidereal time; rise < transit < set; ValueError beyond 66d33'":
-        "unproved (searched); the 1 deg bound is refuted on the tree of 2026-10-01 near the ends of 1900-2100: witness "
+    "times_rise_transit_set returns (None, None, None) when |cos H0| > 1": "proved [ideal: C14_trts_none]",
+    "times_rise_transit_set returns three None ONLY when |cos H0| > 1": "unproved (searched, key trts-none-iff-never-crossing): the success path runs through two while loops and a for loop on symbolic values",
+    "rise/set within 1 deg of -0.8333 - dip against VSOP Sun + sidereal time; rise < transit < set on the implementation":
+        "unproved (searched); the 1 deg bound is refuted near the ends of 1900-2100: witness "
         "Epoch(2095,3,20).rise_set(Angle(-66.4), Angle(149.22583329129634), 2261.2834322062554) sunset 1.06 deg off "
-        "(known finding, keys sunrise-altitude / sunset-altitude inside the envelope |year-2000| >= 75, |latitude| >= 40, deviation <= 1.3 deg: perihelion longitude frozen at J2000; outside it the keys are *-gross and count as violations)",
-    "times_rise_transit_set: altitude at rise/set within 0.005 deg, meridian at transit, None iff never crossing": "unproved (searched)",
+        "(known finding, keys sunrise-altitude / sunset-altitude ONLY inside the envelope |year-2000| >= 75, |latitude| >= 40, deviation <= 1.3 deg; outside it the keys are *-gross and count as violations)",
+    "times_rise_transit_set: altitude at rise/set within 0.005 deg, meridian at transit (synthetic bodies and the library's own Sun around the March equinox)": "unproved (searched)",
 }
 
 
 def proof_files(tier):
     return ["C14_tac.v", "C14_angle.v", "C14_jde.v", "C14_eot.v", "C14_angle2.v", "C14_season.v",
             "C14_sA0.v", "C14_sA1.v", "C14_sA2.v", "C14_sA3.v", "C14_sB0.v", "C14_sB1.v", "C14_sB2.v", "C14_sB3.v", "C14_season_all.v",
-            "C14_poly.v", "C14_rise.v", "C14_riseset.v", "C14_trts.v", "C14.v"]
+            "C14_poly.v", "C14_rise.v", "C14_riseset.v", "C14_trts.v", "C14_witness.v", "C14.v"]
 
 
 # ------------------------------------------------------------------ correspondence
